@@ -442,6 +442,48 @@ func C11(p *ir.Program, r *report.R) {
 	// installed, so every decode starts from a fresh value.
 	proposalBlockAndPartsChangeTogether(c)
 
+	// ---- one text form for signed integers --------------------------------------------------------------------------
+	// Signed integers (and the entry count of a map) travel as base-16 text: writeInt formats, decodeInt
+	// parses, with the same base, and nothing else in the codec converts between text and integers. A
+	// reader that parses a count with another base or function agrees with the writer only for 0..9.
+	{
+		var bad []string
+		nFmt, nParse := 0, 0
+		for _, f := range p.Funcs {
+			if f.Pkg == nil || ir.RelPkg(f.Pkg.Pkg) != "libs/ser" || f.Blocks == nil || strings.HasSuffix(p.Pos(f.Pos()), "_test.go") || strings.Contains(p.Pos(f.Pos()), "libs/ser/json") {
+				continue
+			}
+			ir.Instrs(f, func(in ssa.Instruction) {
+				call, ok := in.(*ssa.Call)
+				if !ok {
+					return
+				}
+				cn := ir.CalleeName(call)
+				if !strings.HasPrefix(cn, "strconv.") || cn == "strconv.init" {
+					return
+				}
+				top := ir.FuncName(ir.EnclosingTop(f))
+				switch {
+				case cn == "strconv.FormatInt" && top == "libs/ser.writeInt" && Arg(call, 1) == "16":
+					nFmt++
+				case cn == "strconv.ParseInt" && top == "libs/ser.decodeInt" && Arg(call, 1) == "16" && Arg(call, 2) == "64":
+					nParse++
+				case cn == "strconv.Quote" || cn == "strconv.Itoa" && strings.Contains(top, "Error"):
+					// error texts
+				default:
+					bad = append(bad, p.InstrPos(in)+": "+cn+" in "+top)
+				}
+			})
+		}
+		r.Check("K5", "ser/signed-integer-text-form/writer~reader", "-", nFmt == 1 && nParse == 1 && len(bad) == 0, fmt.Sprintf("writeInt formats base 16 (%d), decodeInt parses base 16 into 64 bits (%d), no other text/integer conversion in the codec: %v", nFmt, nParse, bad))
+		// the map decoder reads its entry count with decodeInt, as the map writer writes it with writeInt
+		nCnt := 0
+		for _, cl := range p.Func("libs/ser", "makeMapDecoder").AnonFuncs {
+			nCnt += len(ir.Calls(cl, "ser.decodeInt"))
+		}
+		r.Check("K5", "ser.makeMapDecoder/count-read-as-written", p.Pos(p.Func("libs/ser", "makeMapDecoder").Pos()), nCnt >= 1, "the entry count is read with decodeInt (the writer uses writeInt)")
+	}
+
 	// ---- time.Time: the decoder accepts exactly what the encoder emits -------------------------------------
 	// The encoder writes (Unix seconds, Nanosecond()) and Nanosecond() ranges over [0, 999999999]. The
 	// decoder rebuilds the time only inside that range and nothing narrower: a bound tighter by one
